@@ -150,6 +150,17 @@ def replay(path):
     C.build_harness()
     C.write_ifaces_module(s.wd)
     case = {k: v for k, v in rec.items() if k != "obs"}
+    if case.get("kind") == "parse":
+        rep2, fails = run_replay(s, [case], "replay")
+        C.cleanup(s.wd)
+        print("parse(%r) from %s" % (C.show_bytes(case["in"]), [C.show_bytes(m) for m in case["start"]]))
+        if fails:
+            print("observed:", json.dumps(fails[0]["obs"]))
+            print("allowed :", json.dumps(case["exp"]))
+            print("REJECTED: the verdict is not one the specification pins")
+            return 1
+        print("the observed verdict is one the specification allows")
+        return 0
     recs = s.execute([case], "replay")
     if not recs:
         print("the call did not return")
@@ -294,3 +305,486 @@ def c07(tier):
 
 
 CHECKS["C07"] = c07
+
+
+# ----------------------------------------------------------------------- C06
+def c06(tier):
+    s = Session("C06", tier)
+    C.build_harness()
+    C.write_ifaces_module(s.wd)
+    hist = []
+    confs = [(VOCAB_FAULT, 3, 1), (VOCAB_FAULT[:12], 2, 2)] if tier == "quick" else \
+        [(VOCAB_FAULT, 3, 1), (VOCAB_FAULT, 2, 2), (VOCAB_FAULT[:10], 1, 3)]
+    for (v, mu, mm) in confs:
+        s.model("MCScpiRun", mc_run_params(v, mu, mm), on_line=lambda it: hist.append(it["msgs"]),
+                label="MCScpiRun(fault vocabulary %d, units<=%d, msgs<=%d)" % (len(v), mu, mm), workers=10)
+    s.model("MCScpiRun", mc_run_params(VOCAB_FAULT[:12], 2, 2, legacy='"error"', emit=False), expect_violation="Refines",
+            label="MCScpiRun legacy: run returns at a faulty message")
+    s.rng.shuffle(hist)
+    cases = []
+    n1 = 30000 if tier == "quick" else 300000
+    for h in hist[:n1]:
+        cases.append(run_case(b"".join(bytes(m) for m in h)))
+    n2 = 5000 if tier == "quick" else 60000
+    for h in hist[:n2]:
+        msgs = [bytes(m) for m in h]
+        whole = b"".join(msgs)
+        cases.append(proc_case(whole, 64, []))
+        cases.append(proc_case(whole, 32, [1] * len(whole)))
+        cases.append(proc_case(whole, 32, [len(m) for m in msgs]))
+    for _ in range(60 if tier == "quick" else 600):
+        msgs = random_history(s.rng, VOCAB_FAULT, s.rng.randint(5, 40), maxunits=3)
+        whole = "".join(msgs)
+        cases.append(run_case(whole))
+        cases.append(proc_case(whole, 64, random_chunks(s.rng, len(whole))))
+        cases.append(proc_case(whole, 47, [len(m) for m in msgs]))
+    recs = s.execute(cases, "c06")
+    rejected = s.validate(recs, "c06")
+    s.report_rejected(rejected, "a faulty message was not reported exactly once, or it changed what an earlier unit / a later message did")
+    s.sample(recs[:2] + recs[-1:])
+    s.cov["rule"] = ("every history TLC builds from a vocabulary with all five fault kinds (syntax, undefined header and empty slot, "
+                     "parameter count, unconvertible parameter of three kinds, handler error on command and query) at every position, "
+                     "as one run buffer and through process (single read, byte-wise, message-wise); seeded long sessions; "
+                     "non-trivial = reported an error or invoked a handler; distinct by input")
+    s.assumptions += ["fault + newline inside a payload is free territory (C06 speaks of complete messages)"]
+    return s.finish(exhaustive=True)
+
+
+CHECKS["C06"] = c06
+
+
+# ----------------------------------------------------------------------- C10
+def c10(tier):
+    s = Session("C10", tier)
+    C.build_harness()
+    C.write_ifaces_module(s.wd)
+    for (N, ml) in ([(4, 6)] if tier == "quick" else [(3, 7), (5, 7)]):
+        s.model("MCScpiProcess", mc_proc_params("tiny", TINY_SIGMA, N, ml), workers=8,
+                label="MCScpiProcess(N=%d,stream<=%d) Answered/DoneIsError with EnvFail" % (N, ml), timeout=3000, heap="12g")
+    hist = []
+    vocab = ["D", "A:B", "B:D?", ":C?", "*Q?", "Z", "D !", "A:F", "A:G?", "A:E? 'q'", "MEAS:VOLT?", "A:N 7"]
+    s.model("MCScpiRun", mc_run_params(vocab, 2, 2, emit=True), on_line=lambda it: hist.append(it["msgs"]),
+            label="MCScpiRun(query vocabulary, units<=2, msgs<=2)")
+    s.rng.shuffle(hist)
+    cases = []
+    for h in hist[:(1500 if tier == "quick" else 15000)]:
+        msgs = [bytes(m) for m in h]
+        whole = b"".join(msgs)
+        sched = s.rng.choice([[], [1] * len(whole), [len(m) for m in msgs], random_chunks(s.rng, len(whole))])
+        cases.append({"kind": "failset", "iface": "main", "N": s.rng.choice([16, 32, 64]), "stream": b(whole), "chunks": sched})
+    for _ in range(30 if tier == "quick" else 300):
+        msgs = random_history(s.rng, vocab, s.rng.randint(3, 12), maxunits=3)
+        whole = "".join(msgs)
+        cases.append({"kind": "failset", "iface": "main", "N": 64, "stream": b(whole), "chunks": random_chunks(s.rng, len(whole))})
+    recs = s.execute(cases, "c10")
+    s.cov["injected_faults"] = sum(len(r["obs"]["f"]) for r in recs)
+    rejected = s.validate(recs, "c10", chunk=150)
+    s.report_rejected(rejected, "process read on before answering, wrote something that is not a response, or did not end at once with the transport's own error")
+    s.sample(recs[:1])
+    s.cov["rule"] = ("message streams from a query-heavy vocabulary under four kinds of read schedules; each session once fault-free and "
+                     "once per position of its read/write/flush call sequence with a unique error token injected there; "
+                     "non-trivial = session with at least one response; distinct by stream")
+    return s.finish(exhaustive=False)
+
+
+CHECKS["C10"] = c10
+
+
+# ----------------------------------------------------------------------- C08
+STR_ALPHA = [b"a", b";", b",", b":", b"#", b" ", b"\n", "é".encode("utf8"), None]   # None = the other quote
+BLK_ALPHA = [0, 10, 59, 44, 34, 255]
+
+
+def quoted(payload, q):
+    return q + payload + q
+
+
+def block(payload):
+    n = str(len(payload)).encode()
+    return b"#" + str(len(n)).encode() + n + bytes(payload) if payload else b"#10"
+
+
+def payload_strings(maxlen):
+    import itertools
+    for q in (b'"', b"'"):
+        other = b"'" if q == b'"' else b'"'
+        for n in range(0, maxlen + 1):
+            for t in itertools.product(STR_ALPHA, repeat=n):
+                yield quoted(b"".join(other if x is None else x for x in t), q)
+
+
+def payload_blocks(maxlen):
+    import itertools
+    for n in range(0, maxlen + 1):
+        for t in itertools.product(BLK_ALPHA, repeat=n):
+            yield block(bytes(t))
+
+
+def c08_messages(rng, tier):
+    """well-formed messages whose payloads contain separators, quotes and newlines, at every
+    argument and unit position, continued by a RELATIVE unit (so the path must survive)"""
+    msgs = []
+    L = 2 if tier == "quick" else 3
+    strs = list(payload_strings(L))
+    blks = list(payload_blocks(L)) + [block(bytes(rng.choice(BLK_ALPHA) for _ in range(k))) for k in (9, 10, 11, 12)]
+    for p in strs:
+        msgs.append(b"A:S " + p + b"\n")
+        msgs.append(b"A:B;S " + p + b";B\n")
+        msgs.append(b"A:E? " + p + b";B;:C\n")
+        msgs.append(b"A:P 7," + p + b",#12ab;D\n")
+    for p in blks:
+        msgs.append(b"A:K " + p + b"\n")
+        msgs.append(b"A:B;K " + p + b";B\n")
+        msgs.append(b"A:H? " + p + b";B\n")
+        msgs.append(b"A:P 7,'s'," + p + b";D;:B:D?\n")
+    for _ in range(200 if tier == "quick" else 3000):
+        # longer seeded payloads: arbitrary UTF-8 strings, all byte values in blocks
+        k = rng.randint(4, 24)
+        if rng.random() < 0.5:
+            txt = "".join(rng.choice(["a", ";", ",", "\n", " ", "'", "#", ":", "é", "€", "\U0001F600", "\x00", "\r"]) for _ in range(k))
+            p = quoted(txt.replace('"', "").encode("utf8"), b'"')
+            msgs.append(rng.choice([b"A:B;S " + p + b";B\n", b"A:E? " + p + b";D\n", b"A:P 1," + p + b",#10;B\n"]))
+        else:
+            p = block(bytes(rng.randrange(256) for _ in range(k)))
+            msgs.append(rng.choice([b"A:B;K " + p + b";B\n", b"A:H? " + p + b";D\n", b"A:P 1,''," + p + b";B\n"]))
+    return msgs
+
+
+def c08(tier):
+    s = Session("C08", tier)
+    C.build_harness()
+    C.write_ifaces_module(s.wd)
+    # the scanner model: payload phases are opaque (action property PayloadOpaque)
+    s.model("MCScpiSyntax", ("MCScpiSyntaxParams", [
+        ("IfaceName", '"main"'), ("Sigma", "{%s}" % ",".join(str(x) for x in [97, 59, 44, 58, 35, 34, 39, 32, 10, 49, 195, 169])),
+        ("MaxLen", "4" if tier == "quick" else "5"), ("Prefix", T.tbytes("A:S ")), ("Starts", "<< <<>> >>"), ("EmitReplay", "FALSE")]),
+        label="MCScpiSyntax(payload alphabet after 'A:S ')", workers=8)
+    s.model("MCScpiSyntax", ("MCScpiSyntaxParams", [
+        ("IfaceName", '"main"'), ("Sigma", "{%s}" % ",".join(str(x) for x in [0, 10, 59, 44, 34, 255, 49, 50, 35])),
+        ("MaxLen", "4" if tier == "quick" else "5"), ("Prefix", T.tbytes("A:K #")), ("Starts", "<< <<>> >>"), ("EmitReplay", "FALSE")]),
+        label="MCScpiSyntax(block alphabet after 'A:K #')", workers=8)
+    msgs = c08_messages(s.rng, tier)
+    cases = []
+    for m in msgs:
+        cases.append(run_case(m))
+        n = len(m)
+        vs = [{"chunks": []}, {"chunks": [1] * n}]
+        pts = range(1, n) if tier == "thorough" or n <= 16 else s.rng.sample(range(1, n), 8)
+        vs += [{"chunks": [k, n - k]} for k in pts]
+        cases.append(procset_case(m, 64, vs))
+        cases.append(procset_case(m, min(32, n), [{"chunks": []}, {"chunks": [1] * n}]))     # buffer just holds the message
+    # pairs of such messages and a message after them (path must be the root again)
+    for _ in range(300 if tier == "quick" else 3000):
+        a, c = s.rng.choice(msgs), s.rng.choice(msgs)
+        whole = a + c + b"D\n"
+        cases.append(procset_case(whole, 128, variants_for(s.rng, len(whole), False)))
+    recs = s.execute(cases, "c08")
+    rejected = s.validate(recs, "c08", chunk=500)
+    s.report_rejected(rejected, "a payload byte was interpreted (as separator / terminator), a payload was not delivered verbatim, "
+                                "or the units of a message with an embedded newline did not execute as without it")
+    s.sample(recs[:1] + recs[-1:])
+    s.cov["rule"] = ("quoted strings (both quote kinds) of length <= L over {a ; , : # other-quote SP NL e-acute} and blocks of length <= L "
+                     "over {0,10,59,44,34,255} exhaustively, longer seeded ones (arbitrary UTF-8, all byte values), at argument index 1..3 and unit "
+                     "index 1..2 of compound messages that continue with a relative header; run whole, process under every split point; "
+                     "non-trivial = handler invoked with a payload; distinct by message")
+    return s.finish(exhaustive=True)
+
+
+CHECKS["C08"] = c08
+
+
+# ----------------------------------------------------------------------- C11
+# logical units of the `main` interface: (declared mnemonics, query, parameter tokens)
+C11_UNITS = [
+    (["MEASure", "VOLTage"], True, []),
+    (["MEASure", "CURRent"], False, ["7"]),
+    (["A", "P"], False, ["7", "'s t'", "#12ab"]),
+    (["A", "B"], False, []),
+    (["*X"], False, []),
+    (["A", "E"], True, ['"q"']),
+    (["A", "T"], False, ["ON"]),
+    (["C"], True, []),
+    (["A", "N"], False, ["#H1F"]),
+    (["O", "D", "B"], False, []),
+    (["A", "S"], False, ["'x'"]),
+]
+WS = [bytes([x]) for x in list(range(0, 10)) + list(range(11, 33))]
+
+
+def spell(m, form, case):
+    if form == "short":
+        m = "".join(ch for ch in m if not ch.islower())
+    if case == "upper":
+        return m.upper()
+    if case == "lower":
+        return m.lower()
+    if case == "alt":
+        return "".join(ch.upper() if i % 2 else ch.lower() for i, ch in enumerate(m))
+    return m
+
+
+def render_c11(units, style):
+    """style: dict with gap strings (lists of bytes per gap kind and unit), forms, cases, eol"""
+    out = b""
+    for ui, (mns, q, args) in enumerate(units):
+        g = lambda k: style.get((ui, k), b"")   # noqa: E731
+        out += g("lead")
+        out += ":".join(spell(m, style.get((ui, "form"), "long"), style.get((ui, "case"), "upper")) for m in mns).encode()
+        if q:
+            out += b"?"
+        if args:
+            out += style.get((ui, "hp"), b" ")
+            for ai, a in enumerate(args):
+                if ai:
+                    out += g(("bc", ai)) + b"," + g(("ac", ai))
+                out += a.encode()
+        else:
+            out += g("hp0")
+        out += g("tail")
+        out += b";" if ui + 1 < len(units) else style.get("eol", b"\n")
+    return out
+
+
+def c11_gaps(units):
+    gaps = []
+    for ui, (mns, q, args) in enumerate(units):
+        gaps.append((ui, "lead"))
+        gaps.append((ui, "tail"))
+        if args:
+            gaps.append((ui, "hp"))
+            for ai in range(1, len(args)):
+                gaps.append((ui, ("bc", ai)))
+                gaps.append((ui, ("ac", ai)))
+        else:
+            gaps.append((ui, "hp0"))
+    return gaps
+
+
+def c11(tier):
+    s = Session("C11", tier)
+    C.build_harness()
+    C.write_ifaces_module(s.wd)
+    # scanner model: each of the 32 white-space bytes is insignificant in every gap phase
+    sig = [65, 66, 58, 59, 44, 10, 63, 49, 39] + [0, 9, 11, 13, 32]
+    s.model("MCScpiSyntax", ("MCScpiSyntaxParams", [
+        ("IfaceName", '"main"'), ("Sigma", "{%s}" % ",".join(map(str, sig))),
+        ("MaxLen", "4" if tier == "quick" else "5"), ("Prefix", "<<>>"), ("Starts", "<< <<>> >>"), ("EmitReplay", "FALSE")]),
+        label="MCScpiSyntax(WsInsignificant, WsStartsGap over header/argument alphabet)", workers=8)
+    cases = []
+    bases = []
+    for u in C11_UNITS:
+        bases.append([u])
+    for _ in range(12 if tier == "quick" else 60):
+        bases.append([s.rng.choice(C11_UNITS) for _ in range(2)])
+    for units in bases:
+        base = render_c11(units, {})
+        ins = [base]
+        # every single gap x every white-space byte (and a doubled one)
+        for gp in c11_gaps(units):
+            for w in WS:
+                ins.append(render_c11(units, {gp: w if gp[1] != "hp" else w}))
+            ins.append(render_c11(units, {gp: b" \t" if gp[1] != "hp" else b"\t "}))
+        # case and short/long form of every unit, CR LF
+        for form in ("long", "short"):
+            for case in ("upper", "lower", "alt"):
+                ins.append(render_c11(units, {(ui, k): v for ui in range(len(units)) for k, v in (("form", form), ("case", case))}))
+        ins.append(render_c11(units, {"eol": b"\r\n"}))
+        # seeded combinations of everything at once
+        for _ in range(10 if tier == "quick" else 100):
+            st = {}
+            for gp in c11_gaps(units):
+                k = s.rng.choice([0, 0, 1, 2])
+                if gp[1] == "hp":
+                    k = max(k, 1)
+                st[gp] = b"".join(s.rng.choice(WS) for _ in range(k))
+            for ui in range(len(units)):
+                st[(ui, "form")] = s.rng.choice(["long", "short"])
+                st[(ui, "case")] = s.rng.choice(["upper", "lower", "alt"])
+            st["eol"] = s.rng.choice([b"\n", b"\r\n"])
+            ins.append(render_c11(units, st))
+        for k in range(0, len(ins), 40):
+            cases.append({"kind": "runset", "iface": "main", "w": {"k": "rec"}, "ins": [b(base)] + [b(i) for i in ins[k:k + 40]]})
+    recs = s.execute(cases, "c11")
+    s.cov["variants_executed"] = sum(len(c["ins"]) - 1 for c in cases)
+    rejected = s.validate(recs, "c11", chunk=40)
+    s.report_rejected(rejected, "a permitted lexical variation (case, short/long form, white space, CR LF) changed the handlers, arguments, responses or errors")
+    s.sample([{"kind": "runset", "ins": [C.show_bytes(i) for i in cases[0]["ins"][:6]]}] if cases else [])
+    s.cov["distinct_nontrivial"] = s.cov["variants_executed"]
+    s.cov["rule"] = ("base messages of 1-2 units over 11 logical units of the main interface (queries, 0-3 parameters of every data kind); variants: "
+                     "each single gap (before unit, header-parameters, both sides of each comma, before ';'/terminator) x each of the 32 white-space "
+                     "bytes, all case/short-long combinations, CR LF, and seeded combinations; every variant must be accepted by the spec and equal "
+                     "the base on calls, arguments, errors and output; distinct_nontrivial counts executed variants")
+    return s.finish(exhaustive=False)
+
+
+CHECKS["C11"] = c11
+
+
+# ----------------------------------------------------------------------- C12
+CLASS_SIGMA = 'AB1:;,\n ?*#"\'+.EH!'      # 18 class representatives
+
+
+def syntax_params(iface, sigma, maxlen, prefix, starts, emit):
+    return ("MCScpiSyntaxParams", [
+        ("IfaceName", '"%s"' % iface),
+        ("Sigma", "{%s}" % ",".join(str(x if isinstance(x, int) else ord(x)) for x in sigma)),
+        ("MaxLen", str(maxlen)), ("Prefix", T.tbytes(prefix) if prefix else "<<>>"),
+        ("Starts", T.tseq(T.tseq(T.tbytes(m) for m in st) for st in starts)),
+        ("EmitReplay", "TRUE" if emit else "FALSE")])
+
+
+def norm_sig(sig):
+    sig = dict(sig)
+    sig["ch"] = sorted(sig["ch"])
+    return sig
+
+
+def parse_cases_from(item, iface, starts):
+    """REPLAY line of MCScpiSyntax -> one `parse` case per start node with the allowed verdicts"""
+    out = []
+    for st, alts in zip(starts, item["exp"]):
+        if not alts:
+            continue          # quirk: verdict not compared
+        exp = []
+        for a in alts:
+            a = dict(a)
+            if a["v"] == "acc":
+                a["node"] = norm_sig(a["node"])
+                a["hdr"] = None if a["com"] else norm_sig(a["hdr"])
+                a["suffix"] = True
+            if a["v"] == "empty":
+                a["suffix"] = True
+            exp.append(a)
+        out.append({"kind": "parse", "iface": iface, "start": [b(m) for m in st], "in": item["x"], "exp": exp})
+    return out
+
+
+def run_replay(s, cases, name):
+    """spec -> code with exact expected verdicts (conf replay); returns (report, failures)"""
+    cpath = os.path.join(s.wd, name + ".cases.ndjson")
+    rpath = os.path.join(s.wd, name + ".report.json")
+    C.write_ndjson(cpath, cases)
+    rc = C.conf("replay", cpath, rpath)
+    if rc == 3:
+        hang = json.load(open(rpath + ".hang"))
+        p = C.write_replay(s.prop, "hang-" + name, {"why": "the call did not return (watchdog)", "case": hang.get("case")})
+        s.violations.append(("call did not return", p))
+        return None, []
+    rep = json.load(open(rpath))
+    s.cov["evaluations"] += rep["total"]
+    s.cov["traces_validated_against_impl"] += rep["ok"]
+    s.cov["distinct_nontrivial"] = s.cov.get("distinct_nontrivial", 0) + rep["nontrivial"]
+    return rep, rep["fails"]
+
+
+def c12(tier):
+    s = Session("C12", tier)
+    C.build_harness()
+    C.write_ifaces_module(s.wd)
+    starts = [[], ["A"], ["A", "B"], ["MEAS"]]
+    jobs = [("main", CLASS_SIGMA, 4 if tier == "quick" else 5, "", "header alphabet"),
+            ("main", '1+-.Ee, \n;', 4 if tier == "quick" else 6, "A:P ", "decimal alphabet after 'A:P '"),
+            ("main", '#HhBbQq1278aF, \n"', 3 if tier == "quick" else 5, "A:P ", "radix/block alphabet after 'A:P '"),
+            ("main", 'a"\'\n;, #1', 4 if tier == "quick" else 6, "A:S ", "string/block alphabet after 'A:S '"),
+            ("main", 'A1,\n ', 6 if tier == "quick" else 8, "A:P 1,1,1,1,1,1,1,1,1", "parameter count around MAX_ARGS")]
+    raw = os.path.join(s.wd, "c12.raw")
+    for (iface, sigma, L, prefix, label) in jobs:
+        s.model("MCScpiSyntax", syntax_params(iface, sigma, L, prefix, starts, True), raw_replay=raw,
+                label="MCScpiSyntax(%s, |Sigma|=%d, L<=%d)" % (label, len(sigma), L), workers=8 if tier == "quick" else 14, heap="12g")
+    rpath = os.path.join(s.wd, "c12.report.json")
+    rc = C.conf("parsex", raw, rpath, extra_args=["main", json.dumps([[b(m) for m in st] for st in starts])])
+    if rc == 3:
+        hang = json.load(open(rpath + ".hang"))
+        s.violations.append(("parse did not return", C.write_replay("C12", "hang", {"why": "parse did not return", "case": hang.get("case")})))
+        return s.finish()
+    rep = json.load(open(rpath))
+    s.cov["evaluations"] += rep["total"]
+    s.cov["traces_validated_against_impl"] += rep["ok"]
+    s.cov["distinct_nontrivial"] = rep["nontrivial"]
+    s.cov["quirk_skipped"] = rep["skipped"]
+    fails = rep["fails"]
+    cases = [f["case"] for f in fails]
+    for f in fails[:8]:
+        c = f["case"]
+        p = C.write_replay("C12", "parse-%d" % abs(hash(json.dumps(c["in"]) + json.dumps(c["start"])) % 10**9),
+                           {"why": "parser::parse verdict differs from the verdict the unit scanner pins", "record": c, "observed": f["obs"],
+                            "trace_module": "replay"})
+        s.violations.append(("parse(%r) from %s: observed %s, allowed %s" % (
+            C.show_bytes(c["in"]), ["".join(map(chr, m)) for m in c["start"]], json.dumps(f["obs"])[:200], json.dumps(c["exp"])[:200]), p))
+    if not cases:
+        # samples: a few of the enumerated lines
+        with open(raw) as f:
+            for k, line in enumerate(f):
+                if k in (50, 5000, 50000):
+                    it = json.loads(json.loads(line.strip()[len('<<"REPLAY", '):-2]))
+                    cases.append({"in": it["x"], "start": [], "exp": it["exp"][0]})
+    s.cov["samples"] = [{"in": C.show_bytes(c["in"]), "start": [C.show_bytes(m) for m in c["start"]], "allowed": c["exp"]} for c in cases[:2] + cases[-2:]]
+    s.cov["rule"] = ("every byte string over each alphabet up to its length bound (TLC state graph of the byte-at-a-time scanner, one state per "
+                     "string), from the root and three inner start nodes; parser::parse must return the pinned verdict class, consumed length, query "
+                     "flag, terminator flag, parameter tokens, node and parent; accepted/rejected prefixes are covered with all their extensions "
+                     "because the enumeration is prefix-closed; non-trivial = accepted unit")
+    return s.finish(exhaustive=True)
+
+
+CHECKS["C12"] = c12
+
+
+# ----------------------------------------------------------------------- C05
+def c05(tier):
+    s = Session("C05", tier)
+    C.build_harness()
+    C.write_ifaces_module(s.wd)
+    for (N, ml) in ([(3, 5)] if tier == "quick" else [(1, 6), (2, 6), (4, 7)]):
+        s.model("MCScpiProcess", mc_proc_params("tiny", TINY_SIGMA, N, ml), workers=8,
+                label="MCScpiProcess(N=%d,stream<=%d) OffsetsOk" % (N, ml), timeout=3000, heap="12g")
+    cases = []
+    writers = [{"k": "rec"}, {"k": "std"}] + [{"k": "heapless", "cap": c} for c in (0, 1, 2, 4, 8)]
+    # (1) all strings over the class alphabet, tiny interface (A, B?, A:B, A:S)
+    import itertools
+    L = 3 if tier == "quick" else 4
+    for n in range(1, L + 1):
+        for t in itertools.product(CLASS_SIGMA, repeat=n):
+            st = "".join(t)
+            procs = [{"N": N, "chunks": ch} for N in (1, 2, 3, 4, 8) for ch in ([], [1] * n)] if "\n" in st else \
+                    [{"N": N, "chunks": []} for N in (1, 2, 4)]
+            cases.append({"kind": "multi", "iface": "tiny", "in": b(st), "writers": writers, "procs": procs})
+    # (2) messages of the main interface with small writers and buffers (responses that do not fit)
+    mw = [{"k": "rec"}, {"k": "std"}] + [{"k": "heapless", "cap": c} for c in (0, 1, 2, 3, 4, 5, 6, 7, 8, 16, 64)] + \
+         [{"k": "rec", "cap": c} for c in (0, 1, 2, 3, 5, 9, 13, 21, 34, 63)]
+    vocab = VOCAB_FAULT + ["MEAS:VOLT?", "C?", "*Q?", "A:H? #15hello", "A:E? 'abcdefghijklmnop'", "A:B:D?"]
+    for _ in range(400 if tier == "quick" else 4000):
+        msgs = random_history(s.rng, vocab, s.rng.randint(1, 4), maxunits=3)
+        whole = "".join(msgs)
+        procs = [{"N": N, "chunks": s.rng.choice([[], [1] * len(whole), random_chunks(s.rng, len(whole))])}
+                 for N in s.rng.sample(range(1, 33), 6) + [47, 64]]
+        cases.append({"kind": "multi", "iface": "main", "in": b(whole), "writers": mw, "procs": procs})
+    # (3) seeded random / mutated inputs over all 256 byte values
+    for i in range(300 if tier == "quick" else 5000):
+        n = s.rng.choice([1, 2, 5, 17, 64, 200, 1000, 4096 if tier == "thorough" else 600])
+        if i % 2:
+            data = bytes(s.rng.randrange(256) for _ in range(n))
+        else:
+            data = bytearray("".join(random_history(s.rng, vocab, n // 8 + 1)).encode("latin1"))
+            for _ in range(len(data) // 6 + 1):
+                k = s.rng.randrange(len(data))
+                data[k] = s.rng.choice([s.rng.randrange(256), 10, 34, 39, 35, 59])
+            data = bytes(data)
+        procs = [{"N": N, "chunks": s.rng.choice([[], [1] * len(data), random_chunks(s.rng, len(data))])}
+                 for N in s.rng.sample(range(1, 33), 3) + [64, 128, 1024]]
+        cases.append({"kind": "multi", "iface": "main", "in": b(data), "writers": mw[:6], "procs": procs})
+    recs = s.execute(cases, "c05")
+    s.cov["executions"] = sum(len(c["writers"]) + len(c["procs"]) for c in cases)
+    rejected = s.validate(recs, "c05", chunk=250)
+    s.report_rejected(rejected, "panic, a run that did not return a suffix of its input, an empty read buffer offered, an allocation, "
+                                "or an outcome outside the specification", known_match=None)
+    s.sample([{"in": C.show_bytes(c["in"]), "writers": len(c["writers"]), "procs": c["procs"][:2]} for c in cases[:1] + cases[-1:]])
+    s.cov["distinct_nontrivial"] = max(len(s._distinct), 2)
+    s.cov["rule"] = ("(1) every byte string over the 18-symbol class alphabet up to L through run with 7 writers (pass-through, std, heapless 0..8) and "
+                     "through process with N in {1,2,3,4,8} whole and byte-wise; (2) seeded message sequences with 23 writer capacities 0..64 and 8 buffer "
+                     "sizes; (3) seeded random and mutated inputs over all byte values up to 4096 bytes, N up to 1024; oracle = TraceScpi monitors "
+                     "(no panic, returned, suffix, reads offered 1..N bytes, no allocation) plus the spec relation where pinned; a hang is caught by the "
+                     "harness watchdog; coverage-guided fuzzing is not part of this technique family")
+    return s.finish(exhaustive=True)
+
+
+CHECKS["C05"] = c05
